@@ -1155,6 +1155,24 @@ def np_all_any(which):
     return f
 
 
+def np_unique(ex, v):
+    """numpy.unique of an array of concrete shape whose entries compare concretely: sorted distinct entries"""
+    if isinstance(v, Arr2V) and isinstance(v.rows, int) and isinstance(v.cols, int):
+        items = [v.fn(i, j) for i in range(v.rows) for j in range(v.cols)]
+    elif isinstance(v, SeqV) and v.is_concrete_len():
+        items = v.concrete_items()
+    else:
+        raise Unsupported("numpy.unique of an array of symbolic shape")
+    items = ops.dedupe(ex, items)
+    if all(isinstance(x, WellV) and isinstance(x.r, int) and isinstance(x.c, int) for x in items):
+        items.sort(key=lambda w: "ABCDEFGHIJKLMNOPQRSTUVWXYZ"[w.r] + f"{w.c:02d}")
+    elif all(isinstance(x, (int, str)) and not isinstance(x, bool) for x in items):
+        items.sort()
+    elif len(items) > 1:
+        raise Unsupported("numpy.unique: order of symbolic entries")
+    return SeqV.of("array", items)
+
+
 def np_round(ex, x, decimals=0):
     if isinstance(x, SeqV) or isinstance(x, Arr2V):
         return ops.seq_map(ex, x, lambda e: np_round(ex, e, decimals), "array" if isinstance(x, SeqV) else None)
@@ -1272,6 +1290,8 @@ BUILTINS = {
     "numpy.sum": np_sum,
     "numpy.all": np_all_any("all"),
     "numpy.any": np_all_any("any"),
+    "numpy.unique": np_unique,
+    "numpy.ndenumerate": lambda ex, a: NdEnumV(a),
     "numpy.round": np_round,
     "numpy.shape": np_shape,
     "numpy.zeros": np_zeros,
